@@ -517,6 +517,8 @@ package caldav
 //@   |   || (pcoCalls == old(pcoCalls) && mutations == old(mutations) && err != nil && local4xx(err))
 //@   ensures U2: err != nil ==> (beErr(err) || local4xx(err)) && wstatus(w) == 0
 //@   ensures U3: err == nil ==> wstatus(w) == 201
+//@   -- C13: an invalid or foreign Content-Type is refused with 400 before anything reaches the backend
+//@   ensures U4: old(mimeErr(hdr(r, "Content-Type")) != nil || mimeType(hdr(r, "Content-Type")) != "text/calendar") ==> httpCode(err) == 400 && mutations == old(mutations) && pcoCalls == old(pcoCalls)
 //@ func caldav.(*backend).HeadGet(b, w, r) (err)
 //@   requires R1: servedCB(b) && validReq(r) && w != nil && wstatus(w) == 0
 //@   allocates
